@@ -23,33 +23,148 @@ fn any_valid_start(ts: u16) -> i32 {
     s
 }
 
-/// Reference for one array: Err(code) if the search tick is outside the (shifted) search range, else the
-/// nearest initialised slot in direction (inclusive leftwards, exclusive rightwards) or None.
-fn ref_search(bitmap: u128, start: i32, ti: i32, ts: i32, a_to_b: bool) -> Result<Option<i32>, u32> {
-    let (lo, hi) = if a_to_b {
-        (start, start + TA * ts)
-    } else {
-        (start - ts, start + (TA - 1) * ts)
-    };
-    if ti < lo || ti >= hi {
-        return Err(ecode(ErrorCode::InvalidTickArraySequence));
+// ---------------------------------------------------------------------------------------------
+// Offset space. The private `tick_array::get_offset(tick, start, spacing)` = floor((tick-start)/spacing) is the only
+// place where the search divides. Bit-blasting the 88-step scan *together with* that division over a symbolic
+// start index does not terminate (measured: > 900 s, all SAT back-ends), so (a)/(b) are decided in two layers:
+//   L1 `c10_a_offset_lemma_*`  (real get_offset, no stub): for every valid start, search tick in the (shifted or
+//       unshifted) range and slot s: -1 <= o <= 87 and (s <= o  <=>  start + s*spacing <= tick), i.e. the offset
+//       classifies every slot correctly as "at or left of" / "right of" the search tick.
+//   L2 scan harnesses (annotation `contract`): get_offset replaced by "returns an arbitrary o in [-1, 87]"
+//       (over-approximation justified by L1); the code must return the nearest initialised slot relative to o
+//       (<= o leftwards, > o rightwards), as tick `start + slot*spacing`, or None; errors as in the code.
+// L1 + L2 give: nearest initialised tick <= search tick (a_to_b, inclusive) / > search tick (b_to_a, exclusive).
+
+static mut STUB_O: i32 = 0; // offset returned by the first get_offset call (symbolic, drawn by the harness)
+static mut STUB_EDGE: i32 = 0; // offset asserted + returned for hand-over calls (87 leftwards, -1 rightwards)
+static mut STUB_CALLS: u32 = 0;
+
+/// L2 stub for single-array harnesses
+fn stub_get_offset_any(_tick_index: i32, _start_tick_index: i32, _tick_spacing: u16) -> isize {
+    unsafe { STUB_O as isize }
+}
+
+/// L2 stub for sequence harnesses: first call as above; on later calls (array hand-over) the search tick is
+/// `prev.start - 1` (leftwards) or `prev.start + 88*spacing - 1` (rightwards); the stub ASSERTS that this is
+/// offset 87 / -1 of the array being entered (what L1 says get_offset returns there) and returns that constant.
+fn stub_get_offset_seq(tick_index: i32, start_tick_index: i32, tick_spacing: u16) -> isize {
+    let ts = tick_spacing as i32;
+    let d = tick_index - start_tick_index;
+    unsafe {
+        if STUB_CALLS == 0 {
+            STUB_CALLS = 1;
+            STUB_O as isize
+        } else {
+            let e = STUB_EDGE;
+            assert!(e * ts <= d && d < (e + 1) * ts, "hand-over search tick is the edge slot of the next array");
+            e as isize
+        }
     }
+}
+
+/// `update_tick` of a dynamic array rotates its 10 KB tail. The search never calls it, but CBMC cannot resolve the
+/// `dyn TickArrayType` call targets inside `SwapTickSequence` and symbolically enters every trait method (under an
+/// unsatisfiable guard); this stub keeps that cheap and *asserts* that the rotation is unreachable.
+fn stub_rotate_unreachable<T>(_s: &mut [T], _k: usize) {
+    assert!(false, "slice rotation (update_tick) reached from a tick search");
+}
+
+/// In the (b) harnesses every array is dynamic; the fixed-array methods and get_tick/update_tick are entered by
+/// CBMC only through unresolved `dyn` call targets. These stubs keep that cheap and ASSERT unreachability.
+fn stub_fixed_search_unreachable(_s: &FixedTickArray, _t: i32, _ts: u16, _a: bool) -> anchor_lang::Result<Option<i32>> {
+    assert!(false, "fixed-array search reached although every supplied array is dynamic");
+    Ok(None)
+}
+fn stub_fixed_get_tick_unreachable(_s: &FixedTickArray, _t: i32, _ts: u16) -> anchor_lang::Result<Tick> {
+    assert!(false, "get_tick reached from a tick search");
+    Ok(Tick::default())
+}
+fn stub_dyn_get_tick_unreachable(_s: &DynamicTickArrayLoader, _t: i32, _ts: u16) -> anchor_lang::Result<Tick> {
+    assert!(false, "get_tick reached from a tick search");
+    Ok(Tick::default())
+}
+fn stub_fixed_update_unreachable(_s: &mut FixedTickArray, _t: i32, _ts: u16, _u: &TickUpdate) -> anchor_lang::Result<()> {
+    assert!(false, "update_tick reached from a tick search");
+    Ok(())
+}
+fn stub_dyn_update_unreachable(_s: &mut DynamicTickArrayLoader, _t: i32, _ts: u16, _u: &TickUpdate) -> anchor_lang::Result<()> {
+    assert!(false, "update_tick reached from a tick search");
+    Ok(())
+}
+
+/// (b)/(e) replace the dynamic-array search by ITS REFERENCE as decided in (a): range error, else the nearest
+/// initialised slot relative to the REAL `tick_offset` (get_offset is not stubbed here), loop-free form.
+fn stub_dyn_search_by_reference(s: &DynamicTickArrayLoader, ti: i32, ts: u16, a_to_b: bool) -> anchor_lang::Result<Option<i32>> {
+    let start = s.start_tick_index();
+    let tsi = ts as i32;
+    if !in_range(start, ti, tsi, a_to_b) {
+        return Err(ErrorCode::InvalidTickArraySequence.into());
+    }
+    let o = s.tick_offset(ti, ts)? as i32;
+    Ok(ref_nearest_closed(s.verif_tick_bitmap(), o, a_to_b).map(|c| start + c * tsi))
+}
+
+/// Reference for the slot search in offset space, written without a loop: the nearest set bit of the 88-slot
+/// set relative to offset `o` in [-1, 87]: the largest s <= o (leftwards) / the smallest s > o (rightwards).
+fn ref_nearest_closed(bitmap: u128, o: i32, a_to_b: bool) -> Option<i32> {
+    let slots: u128 = (1u128 << 88) - 1;
+    let upto_o: u128 = (1u128 << ((o + 1) as u32)) - 1; // slots 0..=o (empty for o = -1)
+    if a_to_b {
+        let m = bitmap & slots & upto_o;
+        if m == 0 { None } else { Some(127 - m.leading_zeros() as i32) }
+    } else {
+        let m = bitmap & slots & !upto_o;
+        if m == 0 { None } else { Some(m.trailing_zeros() as i32) }
+    }
+}
+
+/// Reference scan for the slot search in offset space: the nearest set bit of the 88-slot set relative to offset
+/// `o`: the largest s <= o (leftwards) / the smallest s > o (rightwards).
+fn ref_nearest(bitmap: u128, o: i32, a_to_b: bool) -> Option<i32> {
     let mut best: Option<i32> = None;
     let mut s: i32 = 0;
     while s < TA {
-        let t = start + s * ts;
         if (bitmap >> s) & 1 == 1 {
             if a_to_b {
-                if t <= ti {
-                    best = Some(t); // the last qualifying slot is the largest one
+                if s <= o {
+                    best = Some(s);
                 }
-            } else if t > ti && best.is_none() {
-                best = Some(t); // the first qualifying slot is the smallest one
+            } else if s > o && best.is_none() {
+                best = Some(s);
             }
         }
         s += 1;
     }
-    Ok(best)
+    best
+}
+
+/// the loop-free form of the reference (used where a harness must keep its unwind bound small) == the reference scan
+// @verif prop=C10 tier=quick timeout=600
+#[kani::proof]
+#[kani::unwind(90)]
+fn c10_ref_closed_form_eq_scan() {
+    let bitmap: u128 = kani::any();
+    let o: i32 = kani::any();
+    kani::assume(o >= -1 && o <= 87);
+    let a_to_b: bool = kani::any();
+    let x = ref_nearest(bitmap, o, a_to_b);
+    let y = ref_nearest_closed(bitmap, o, a_to_b);
+    kani::cover!(x.is_none(), "none");
+    kani::cover!(x == Some(87), "slot 87");
+    assert!(x == y, "closed form == scan");
+}
+
+fn in_range(start: i32, ti: i32, ts: i32, a_to_b: bool) -> bool {
+    let (lo, hi) = if a_to_b { (start, start + TA * ts) } else { (start - ts, start + (TA - 1) * ts) };
+    ti >= lo && ti < hi
+}
+
+/// reference for one array in offset space (see the layer comment above)
+fn ref_search(bitmap: u128, start: i32, ti: i32, o: i32, ts: i32, a_to_b: bool) -> Result<Option<i32>, u32> {
+    if !in_range(start, ti, ts, a_to_b) {
+        return Err(ecode(ErrorCode::InvalidTickArraySequence));
+    }
+    Ok(ref_nearest(bitmap, o, a_to_b).map(|s| start + s * ts))
 }
 
 fn same_search(r: &anchor_lang::Result<Option<i32>>, e: &Result<Option<i32>, u32>) -> bool {
@@ -60,106 +175,467 @@ fn same_search(r: &anchor_lang::Result<Option<i32>>, e: &Result<Option<i32>, u32
     }
 }
 
-/// header of a dynamic tick array (without discriminator): start index, whirlpool, bitmap; the search
-/// reads nothing else
-fn dyn_header(start: i32, bitmap: u128) -> [u8; 64] {
-    let mut buf = [0u8; 64];
+/// image of a dynamic tick array without discriminator (the loader type is MAX_LEN bytes; the search reads the
+/// start index and the bitmap only)
+fn dyn_image(start: i32, bitmap: u128) -> [u8; DynamicTickArray::MAX_LEN] {
+    let mut buf = [0u8; DynamicTickArray::MAX_LEN];
     buf[0..4].copy_from_slice(&start.to_le_bytes());
     buf[36..52].copy_from_slice(&bitmap.to_le_bytes());
     buf
 }
 
-fn fixed_from_bitmap(start: i32, bitmap: u128) -> FixedTickArray {
-    let mut arr = FixedTickArray::default();
-    arr.start_tick_index = start;
+const FIXED_SZ: usize = 4 + 113 * 88 + 32;
+/// image of a fixed tick array without discriminator: only the `initialized` byte of each slot is non-zero
+fn fixed_image(start: i32, bitmap: u128) -> [u8; FIXED_SZ] {
+    let mut b = [0u8; FIXED_SZ];
+    b[0..4].copy_from_slice(&start.to_le_bytes());
     let mut s = 0usize;
     while s < TICK_ARRAY_SIZE_USIZE {
-        arr.ticks[s].initialized = (bitmap >> s) & 1 == 1;
+        b[4 + 113 * s] = ((bitmap >> s) & 1) as u8;
         s += 1;
     }
-    arr
+    b
 }
 
-fn search_covers(r: &anchor_lang::Result<Option<i32>>, start: i32, ti: i32, ts: u16, a_to_b: bool) {
+// ---- L1 ----
+fn offset_lemma(ts: u16, start: i32, ti: i32, s: i32) {
     let tsi = ts as i32;
-    kani::cover!(matches!(r, Ok(Some(t)) if *t == start), "found in slot 0");
-    kani::cover!(matches!(r, Ok(Some(t)) if *t == start + 87 * tsi), "found in slot 87");
-    kani::cover!(matches!(r, Ok(None)), "none");
-    kani::cover!(r.is_err(), "outside the search range");
-    kani::cover!(r.is_ok() && !a_to_b && ti < start, "shifted search from below the array start");
-    kani::cover!(r.is_ok() && start < MIN_TICK_INDEX, "array straddling MIN_TICK_INDEX");
+    kani::assume(Tick::check_is_valid_start_tick(start, ts));
+    kani::assume(ti >= start - tsi && ti < start + TA * tsi); // union of the shifted and unshifted search ranges
+    kani::assume(s >= 0 && s < TA);
+    let buf = dyn_image(start, 0);
+    let arr = DynamicTickArrayLoader::load(&buf);
+    let o = arr.tick_offset(ti, ts).unwrap();
+    kani::cover!(o == -1 && start < MIN_TICK_INDEX, "shifted search below the MIN array");
+    kani::cover!(o == 87, "last slot");
+    assert!(o >= -1 && o <= 87, "offset window");
+    assert!((s as isize <= o) == (start + s * tsi <= ti), "slot s is at or left of the search tick iff s <= offset");
+    // the two hand-over positions used by SwapTickSequence
+    if ti == start + TA * tsi - 1 {
+        assert!(o == 87);
+    }
+    if ti == start - 1 {
+        assert!(o == -1);
+    }
 }
 
-fn dyn_search_vs_ref(ts: u16) {
+/// (a) L1: real tick_offset/get_offset classifies every slot correctly; symbolic valid start (incl. MIN array), search tick in range, slot; spacings 1, 8, 64, 32896
+// @verif prop=C10 tier=quick timeout=300
+#[kani::proof]
+#[kani::unwind(5)]
+#[kani::stub(alloc::fmt::format, stub_format)]
+#[kani::stub(<anchor_lang::error::Error as core::convert::From<::whirlpool::errors::ErrorCode>>::from, stub_err_from_code)]
+fn c10_a_offset_lemma_quick() {
+    let start: [i32; 4] = kani::any();
+    let ti: [i32; 4] = kani::any();
+    let s: [i32; 4] = kani::any();
+    offset_lemma(1, start[0], ti[0], s[0]);
+    offset_lemma(8, start[1], ti[1], s[1]);
+    offset_lemma(64, start[2], ti[2], s[2]);
+    offset_lemma(32896, start[3], ti[3], s[3]);
+}
+
+/// (a) L1 for spacings 2, 128, 256, 32768
+// @verif prop=C10 tier=thorough timeout=300
+#[kani::proof]
+#[kani::unwind(5)]
+#[kani::stub(alloc::fmt::format, stub_format)]
+#[kani::stub(<anchor_lang::error::Error as core::convert::From<::whirlpool::errors::ErrorCode>>::from, stub_err_from_code)]
+fn c10_a_offset_lemma_thorough() {
+    let start: [i32; 4] = kani::any();
+    let ti: [i32; 4] = kani::any();
+    let s: [i32; 4] = kani::any();
+    offset_lemma(2, start[0], ti[0], s[0]);
+    offset_lemma(128, start[1], ti[1], s[1]);
+    offset_lemma(256, start[2], ti[2], s[2]);
+    offset_lemma(32768, start[3], ti[3], s[3]);
+}
+
+// ---- L2, dynamic array ----
+fn dyn_scan(ts: u16) {
     let bitmap: u128 = kani::any();
     let start = any_valid_start(ts);
     let ti: i32 = kani::any();
     let a_to_b: bool = kani::any();
-    let buf = dyn_header(start, bitmap);
+    let o: i32 = kani::any();
+    kani::assume(o >= -1 && o <= 87);
+    unsafe { STUB_O = o };
+    let buf = dyn_image(start, bitmap);
     let arr = DynamicTickArrayLoader::load(&buf);
     let r = arr.get_next_init_tick_index(ti, ts, a_to_b);
-    let e = ref_search(bitmap, start, ti, ts as i32, a_to_b);
-    search_covers(&r, start, ti, ts, a_to_b);
+    let e = ref_search(bitmap, start, ti, o, ts as i32, a_to_b);
+    kani::cover!(matches!(r, Ok(Some(t)) if t == start), "found in slot 0");
+    kani::cover!(matches!(r, Ok(None)), "none");
+    kani::cover!(r.is_err(), "outside the search range");
+    kani::cover!(matches!(r, Ok(Some(_))) && !a_to_b && ti < start && start < MIN_TICK_INDEX, "shifted search into the MIN array");
+    kani::cover!(matches!(r, Ok(Some(t)) if t == start) && !a_to_b && o == -1 && ti < start, "b_to_a from the one-spacing window below the start (offset -1) finds slot 0");
     assert!(same_search(&r, &e), "dynamic array search == reference scan");
     core::mem::forget(r);
 }
 
-fn fixed_search_vs_ref(ts: u16) {
+/// (a) L2: DynamicTickArrayLoader::get_next_init_tick_index == reference scan; symbolic 128-bit bitmap, valid start (incl. MIN array), search tick (all i32), direction, offset in [-1,87]; spacing 1
+// @verif prop=C10 tier=quick timeout=600 contract
+#[kani::proof]
+#[kani::unwind(90)]
+#[kani::stub(alloc::fmt::format, stub_format)]
+#[kani::stub(<anchor_lang::error::Error as core::convert::From<::whirlpool::errors::ErrorCode>>::from, stub_err_from_code)]
+#[kani::stub(::whirlpool::state::tick_array::get_offset, stub_get_offset_any)]
+fn c10_a_dyn_scan_ts1() {
+    dyn_scan(1);
+}
+
+/// (a) L2: DynamicTickArrayLoader::get_next_init_tick_index == reference scan; symbolic 128-bit bitmap, valid start (incl. MIN array), search tick (all i32), direction, offset in [-1,87]; spacing 8
+// @verif prop=C10 tier=quick timeout=600 contract
+#[kani::proof]
+#[kani::unwind(90)]
+#[kani::stub(alloc::fmt::format, stub_format)]
+#[kani::stub(<anchor_lang::error::Error as core::convert::From<::whirlpool::errors::ErrorCode>>::from, stub_err_from_code)]
+#[kani::stub(::whirlpool::state::tick_array::get_offset, stub_get_offset_any)]
+fn c10_a_dyn_scan_ts8() {
+    dyn_scan(8);
+}
+
+/// (a) L2: DynamicTickArrayLoader::get_next_init_tick_index == reference scan; symbolic 128-bit bitmap, valid start (incl. MIN array), search tick (all i32), direction, offset in [-1,87]; spacing 64
+// @verif prop=C10 tier=quick timeout=600 contract
+#[kani::proof]
+#[kani::unwind(90)]
+#[kani::stub(alloc::fmt::format, stub_format)]
+#[kani::stub(<anchor_lang::error::Error as core::convert::From<::whirlpool::errors::ErrorCode>>::from, stub_err_from_code)]
+#[kani::stub(::whirlpool::state::tick_array::get_offset, stub_get_offset_any)]
+fn c10_a_dyn_scan_ts64() {
+    dyn_scan(64);
+}
+
+/// (a) L2: DynamicTickArrayLoader::get_next_init_tick_index == reference scan; symbolic 128-bit bitmap, valid start (incl. MIN array), search tick (all i32), direction, offset in [-1,87]; spacing 32896
+// @verif prop=C10 tier=quick timeout=600 contract
+#[kani::proof]
+#[kani::unwind(90)]
+#[kani::stub(alloc::fmt::format, stub_format)]
+#[kani::stub(<anchor_lang::error::Error as core::convert::From<::whirlpool::errors::ErrorCode>>::from, stub_err_from_code)]
+#[kani::stub(::whirlpool::state::tick_array::get_offset, stub_get_offset_any)]
+fn c10_a_dyn_scan_ts32896() {
+    dyn_scan(32896);
+}
+
+/// (a) L2: DynamicTickArrayLoader::get_next_init_tick_index == reference scan; symbolic 128-bit bitmap, valid start (incl. MIN array), search tick (all i32), direction, offset in [-1,87]; spacing 2
+// @verif prop=C10 tier=thorough timeout=600 contract
+#[kani::proof]
+#[kani::unwind(90)]
+#[kani::stub(alloc::fmt::format, stub_format)]
+#[kani::stub(<anchor_lang::error::Error as core::convert::From<::whirlpool::errors::ErrorCode>>::from, stub_err_from_code)]
+#[kani::stub(::whirlpool::state::tick_array::get_offset, stub_get_offset_any)]
+fn c10_a_dyn_scan_ts2() {
+    dyn_scan(2);
+}
+
+/// (a) L2: DynamicTickArrayLoader::get_next_init_tick_index == reference scan; symbolic 128-bit bitmap, valid start (incl. MIN array), search tick (all i32), direction, offset in [-1,87]; spacing 128
+// @verif prop=C10 tier=thorough timeout=600 contract
+#[kani::proof]
+#[kani::unwind(90)]
+#[kani::stub(alloc::fmt::format, stub_format)]
+#[kani::stub(<anchor_lang::error::Error as core::convert::From<::whirlpool::errors::ErrorCode>>::from, stub_err_from_code)]
+#[kani::stub(::whirlpool::state::tick_array::get_offset, stub_get_offset_any)]
+fn c10_a_dyn_scan_ts128() {
+    dyn_scan(128);
+}
+
+/// (a) L2: DynamicTickArrayLoader::get_next_init_tick_index == reference scan; symbolic 128-bit bitmap, valid start (incl. MIN array), search tick (all i32), direction, offset in [-1,87]; spacing 256
+// @verif prop=C10 tier=thorough timeout=600 contract
+#[kani::proof]
+#[kani::unwind(90)]
+#[kani::stub(alloc::fmt::format, stub_format)]
+#[kani::stub(<anchor_lang::error::Error as core::convert::From<::whirlpool::errors::ErrorCode>>::from, stub_err_from_code)]
+#[kani::stub(::whirlpool::state::tick_array::get_offset, stub_get_offset_any)]
+fn c10_a_dyn_scan_ts256() {
+    dyn_scan(256);
+}
+
+/// (a) L2: DynamicTickArrayLoader::get_next_init_tick_index == reference scan; symbolic 128-bit bitmap, valid start (incl. MIN array), search tick (all i32), direction, offset in [-1,87]; spacing 32768
+// @verif prop=C10 tier=thorough timeout=600 contract
+#[kani::proof]
+#[kani::unwind(90)]
+#[kani::stub(alloc::fmt::format, stub_format)]
+#[kani::stub(<anchor_lang::error::Error as core::convert::From<::whirlpool::errors::ErrorCode>>::from, stub_err_from_code)]
+#[kani::stub(::whirlpool::state::tick_array::get_offset, stub_get_offset_any)]
+fn c10_a_dyn_scan_ts32768() {
+    dyn_scan(32768);
+}
+
+// ---- L2, fixed array (REDUCED) ----
+// A fixed-array search with a symbolic slot index reads a 113-byte packed `Tick` at a symbolic offset of the
+// 9956-byte account in each of the 88 loop iterations; that did not finish (900 s, three SAT back-ends, and 13 GB
+// with the byte-image encoding). The fixed array is therefore decided only for CONCRETE offsets: the two
+// full-length hand-over searches (offset 87 leftwards, -1 rightwards: every slot is visited) and the searches
+// starting within 6 slots of the array edge in search direction; bitmap, start index and search tick stay symbolic.
+// Interior start offsets of fixed arrays are outside the K claim (the loop body is the code the full-length cases run).
+const FIXED_CASES: [(i32, bool); 14] = [
+    (87, true), (0, true), (1, true), (2, true), (3, true), (4, true), (5, true),
+    (-1, false), (81, false), (82, false), (83, false), (84, false), (85, false), (86, false),
+];
+
+fn fixed_scan_cases(ts: u16, first: usize, last: usize) {
     let bitmap: u128 = kani::any();
     let start = any_valid_start(ts);
     let ti: i32 = kani::any();
-    let a_to_b: bool = kani::any();
-    let arr = fixed_from_bitmap(start, bitmap);
-    let r = arr.get_next_init_tick_index(ti, ts, a_to_b);
-    let e = ref_search(bitmap, start, ti, ts as i32, a_to_b);
-    search_covers(&r, start, ti, ts, a_to_b);
-    assert!(same_search(&r, &e), "fixed array search == reference scan");
+    let case: usize = kani::any();
+    kani::assume(case >= first && case <= last);
+    let img = fixed_image(start, bitmap);
+    let arr: &FixedTickArray = bytemuck::from_bytes(&img); // the cast load_tick_array performs on the account data
+    let mut k = first;
+    while k <= last {
+        if case == k {
+            let (o, a_to_b) = FIXED_CASES[k];
+            unsafe { STUB_O = o };
+            let r = arr.get_next_init_tick_index(ti, ts, a_to_b);
+            let e = ref_search(bitmap, start, ti, o, ts as i32, a_to_b);
+            kani::cover!(matches!(r, Ok(Some(_))), "found");
+            assert!(same_search(&r, &e), "fixed array search == reference scan");
+            core::mem::forget(r);
+        }
+        k += 1;
+    }
+}
+
+/// (a) L2, fixed array, reduced to 14 concrete offsets (see comment): FixedTickArray::get_next_init_tick_index == reference scan; symbolic `initialized` byte of all 88 slots, valid start, search tick; spacing 8
+// @verif prop=C10 tier=thorough timeout=900 contract
+#[kani::proof]
+#[kani::unwind(90)]
+#[kani::stub(alloc::fmt::format, stub_format)]
+#[kani::stub(<anchor_lang::error::Error as core::convert::From<::whirlpool::errors::ErrorCode>>::from, stub_err_from_code)]
+#[kani::stub(::whirlpool::state::tick_array::get_offset, stub_get_offset_any)]
+fn c10_a_fixed_scan_cases_ts8() {
+    fixed_scan_cases(8, 0, 13);
+}
+
+/// (a) as c10_a_fixed_scan_cases_ts8; spacing 128
+// @verif prop=C10 tier=thorough timeout=900 contract
+#[kani::proof]
+#[kani::unwind(90)]
+#[kani::stub(alloc::fmt::format, stub_format)]
+#[kani::stub(<anchor_lang::error::Error as core::convert::From<::whirlpool::errors::ErrorCode>>::from, stub_err_from_code)]
+#[kani::stub(::whirlpool::state::tick_array::get_offset, stub_get_offset_any)]
+fn c10_a_fixed_scan_cases_ts128() {
+    fixed_scan_cases(128, 0, 13);
+}
+
+/// (a) L2, fixed array, quick subset: offsets 0..2 leftwards and 84..86 rightwards (first / last slots); spacing 8
+// @verif prop=C10 tier=quick timeout=600 contract
+#[kani::proof]
+#[kani::unwind(90)]
+#[kani::stub(alloc::fmt::format, stub_format)]
+#[kani::stub(<anchor_lang::error::Error as core::convert::From<::whirlpool::errors::ErrorCode>>::from, stub_err_from_code)]
+#[kani::stub(::whirlpool::state::tick_array::get_offset, stub_get_offset_any)]
+fn c10_a_fixed_scan_edges_ts8() {
+    if kani::any() {
+        fixed_scan_cases(8, 1, 3);
+    } else {
+        fixed_scan_cases(8, 11, 13);
+    }
+}
+
+/// vacuity twin: must FAIL (the dynamic search can return an initialised tick)
+// @verif prop=C10 tier=quick timeout=600 twin contract
+#[kani::proof]
+#[kani::unwind(90)]
+#[kani::stub(alloc::fmt::format, stub_format)]
+#[kani::stub(<anchor_lang::error::Error as core::convert::From<::whirlpool::errors::ErrorCode>>::from, stub_err_from_code)]
+#[kani::stub(::whirlpool::state::tick_array::get_offset, stub_get_offset_any)]
+fn c10_twin_must_fail() {
+    let bitmap: u128 = kani::any();
+    let ti: i32 = kani::any();
+    let o: i32 = kani::any();
+    kani::assume(o >= -1 && o <= 87);
+    unsafe { STUB_O = o };
+    let buf = dyn_image(0, bitmap);
+    let arr = DynamicTickArrayLoader::load(&buf);
+    let r = arr.get_next_init_tick_index(ti, 8, true);
+    let found = matches!(r, Ok(Some(_)));
     core::mem::forget(r);
+    assert!(!found, "twin: a reachable found-tick outcome must be reported");
 }
 
 // ---------------------------------------------------------------------------------------------
-// (a) dynamic array, per spacing
+// (b) SwapTickSequence::get_next_initialized_tick_index over <= 3 dynamic arrays
 
-/// (a) DynamicTickArrayLoader::get_next_init_tick_index == reference scan; symbolic 128-bit bitmap, valid start (incl. MIN array), search tick (all i32), direction; spacing 1
-// @verif prop=C10 tier=quick timeout=300
-#[kani::proof]
-#[kani::unwind(90)]
-#[kani::stub(alloc::fmt::format, stub_format)]
-#[kani::stub(<anchor_lang::error::Error as core::convert::From<::whirlpool::errors::ErrorCode>>::from, stub_err_from_code)]
-fn c10_a_dyn_ts1() {
-    dyn_search_vs_ref(1);
+/// Reference: walk the supplied arrays from `start_idx`; in the first one the nearest initialised slot relative to
+/// the offset `o` of the search tick, in every later one (which must be the *adjacent* array in direction) the
+/// nearest one from its edge; else MIN/MAX at the protocol-edge array, else the edge tick of the last array.
+fn ref_seq(n: usize, starts: &[i32; 3], bm: &[u128; 3], ti: i32, o: i32, ts: i32, a_to_b: bool, start_idx: usize) -> Result<(usize, i32), u32> {
+    if start_idx >= n {
+        return Err(ecode(ErrorCode::TickArraySequenceInvalidIndex));
+    }
+    let tia = TA * ts;
+    if !in_range(starts[start_idx], ti, ts, a_to_b) {
+        return Err(ecode(ErrorCode::InvalidTickArraySequence));
+    }
+    let mut i = start_idx;
+    while i < 3 {
+        let lim = if i == start_idx { o } else if a_to_b { TA - 1 } else { -1 };
+        if let Some(c) = ref_nearest_closed(bm[i], lim, a_to_b) {
+            return Ok((i, starts[i] + c * ts));
+        }
+        if a_to_b && starts[i] <= MIN_TICK_INDEX {
+            return Ok((i, MIN_TICK_INDEX));
+        }
+        if !a_to_b && starts[i] + tia > MAX_TICK_INDEX {
+            return Ok((i, MAX_TICK_INDEX));
+        }
+        if i + 1 == n {
+            return Ok((i, if a_to_b { starts[i] } else { starts[i] + tia - 1 }));
+        }
+        let adjacent = if a_to_b { starts[i] - tia } else { starts[i] + tia };
+        if starts[i + 1] != adjacent {
+            return Err(ecode(ErrorCode::InvalidTickArraySequence));
+        }
+        i += 1;
+    }
+    Err(0) // not reached: n <= 3
 }
 
-/// (a) as c10_a_dyn_ts1, spacing 8
-// @verif prop=C10 tier=quick timeout=300
-#[kani::proof]
-#[kani::unwind(90)]
-#[kani::stub(alloc::fmt::format, stub_format)]
-#[kani::stub(<anchor_lang::error::Error as core::convert::From<::whirlpool::errors::ErrorCode>>::from, stub_err_from_code)]
-fn c10_a_dyn_ts8() {
-    dyn_search_vs_ref(8);
+/// full-size, zero-initialised account images (the loader type is MAX_LEN bytes; Kani checks that the cast target
+/// is backed by memory); only the header (start index, whirlpool, bitmap) is written
+static mut IMG0: [u8; DynamicTickArray::MAX_LEN] = [0u8; DynamicTickArray::MAX_LEN];
+static mut IMG1: [u8; DynamicTickArray::MAX_LEN] = [0u8; DynamicTickArray::MAX_LEN];
+static mut IMG2: [u8; DynamicTickArray::MAX_LEN] = [0u8; DynamicTickArray::MAX_LEN];
+fn write_dyn_header(img: &mut [u8], start: i32, bitmap: u128) {
+    img[0..4].copy_from_slice(&start.to_le_bytes());
+    img[36..52].copy_from_slice(&bitmap.to_le_bytes());
+}
+fn dyn_refmut<'a>(cell: &'a RefCell<&'static mut [u8]>) -> LoadedTickArrayMut<'a> {
+    RefMut::map(cell.borrow_mut(), |d| {
+        let t: &mut dyn TickArrayType = DynamicTickArrayLoader::load_mut(&mut d[..]);
+        t
+    })
 }
 
-/// (a) FixedTickArray::get_next_init_tick_index == reference scan; symbolic `initialized` flag of all 88 slots, valid start, search tick, direction; spacing 8
-// @verif prop=C10 tier=quick timeout=300
+/// body of the (b) harnesses: `a_to_b` is a constant of the harness (the hand-over offset is then a constant and
+/// the scans of the 2nd/3rd array run over concrete slot indices), everything else symbolic
+fn seq_vs_ref(ts: u16, a_to_b: bool, max_n: usize, fixed_start_idx: usize) {
+    let tsi = ts as i32;
+    let tia = TA * tsi;
+    let n: usize = kani::any();
+    kani::assume(n == max_n); // concrete per harness (a symbolic count did not finish in 1200 s)
+    let n = max_n;
+    let start_idx: usize = kani::any();
+    kani::assume(start_idx == fixed_start_idx); // concrete per harness (a symbolic index ran out of memory)
+    let start_idx = fixed_start_idx;
+    let k: [i16; 3] = kani::any();
+    let bm: [u128; 3] = kani::any();
+    let ti: i32 = kani::any();
+    let mut starts = [0i32; 3];
+    let mut j = 0;
+    while j < 3 {
+        // valid start indexes are the multiples of 88*spacing accepted by check_is_valid_start_tick
+        starts[j] = if j < n { k[j] as i32 * tia } else { 0 };
+        kani::assume(Tick::check_is_valid_start_tick(starts[j], ts));
+        j += 1;
+    }
+    let (i0, i1, i2): (&'static mut [u8], &'static mut [u8], &'static mut [u8]) =
+        unsafe { (&mut *core::ptr::addr_of_mut!(IMG0), &mut *core::ptr::addr_of_mut!(IMG1), &mut *core::ptr::addr_of_mut!(IMG2)) };
+    write_dyn_header(i0, starts[0], bm[0]);
+    write_dyn_header(i1, starts[1], bm[1]);
+    write_dyn_header(i2, starts[2], bm[2]);
+    let c0 = RefCell::new(i0);
+    let c1 = RefCell::new(i1);
+    let c2 = RefCell::new(i2);
+    let seq = SwapTickSequence::new(
+        dyn_refmut(&c0),
+        if n >= 2 { Some(dyn_refmut(&c1)) } else { None },
+        if n >= 3 { Some(dyn_refmut(&c2)) } else { None },
+    );
+    let r = seq.get_next_initialized_tick_index(ti, ts, a_to_b, start_idx);
+    // offset of the search tick in the first array: floor((ti - start) / spacing)
+    let o = if start_idx < n && in_range(starts[start_idx], ti, tsi, a_to_b) { (ti - starts[start_idx]).div_euclid(tsi) } else { 0 };
+    let e = ref_seq(n, &starts, &bm, ti, o, tsi, a_to_b, start_idx);
+    kani::cover!(matches!(r, Ok((i, _)) if i == start_idx + 1), "found in the next array");
+    kani::cover!(matches!(r, Ok((i, t)) if i == start_idx + 1 && i < 3 && (a_to_b || t == starts[i]) && (!a_to_b || t == starts[i] + 87 * tsi)), "roll-over finds the first slot of the next array (slot 0 rightwards / slot 87 leftwards)");
+    kani::cover!(matches!(r, Ok((i, t)) if i + 1 == n && (t == starts[i] || t == starts[i] + tia - 1) && bm[i] == 0), "edge tick of the last supplied array");
+    kani::cover!(matches!(r, Ok((_, t)) if t == MIN_TICK_INDEX || t == MAX_TICK_INDEX), "protocol bound");
+    kani::cover!(matches!(&r, Err(x) if acode(x) == ecode(ErrorCode::InvalidTickArraySequence)) && start_idx < n && in_range(starts[start_idx], ti, tsi, a_to_b), "non-adjacent next array");
+    match (&r, &e) {
+        (Ok(x), Ok(y)) => assert!(x == y, "sequence search == reference"),
+        (Err(x), Err(y)) => assert!(acode(x) == *y, "sequence search error == reference"),
+        _ => assert!(false, "sequence search outcome kind == reference"),
+    }
+    // next_array_index only advances past arrays that hold no initialised tick in direction, and the returned
+    // tick lies inside the returned array
+    if let Ok((i, t)) = &r {
+        assert!(*i >= start_idx && *i < n);
+        assert!(*t >= starts[*i] && *t < starts[*i] + tia);
+    }
+    core::mem::forget(r);
+}
+
+/// (b) SwapTickSequence::get_next_initialized_tick_index == reference; 2 dynamic array(s), start_array_index 0 (both concrete: symbolic ones ran out of memory / time), symbolic valid start indexes, 128-bit bitmaps, search tick; direction a2b; spacing 64; the per-array search is replaced by its reference from (a)
+// @verif prop=C10 tier=quick timeout=900 contract
 #[kani::proof]
-#[kani::unwind(90)]
+#[kani::unwind(5)]
 #[kani::stub(alloc::fmt::format, stub_format)]
 #[kani::stub(<anchor_lang::error::Error as core::convert::From<::whirlpool::errors::ErrorCode>>::from, stub_err_from_code)]
-fn c10_a_fixed_ts8() {
-    fixed_search_vs_ref(8);
+#[kani::stub(<::whirlpool::state::DynamicTickArrayLoader as ::whirlpool::state::TickArrayType>::get_next_init_tick_index, stub_dyn_search_by_reference)]
+#[kani::stub(<::whirlpool::state::TickArray as ::whirlpool::state::TickArrayType>::get_next_init_tick_index, stub_fixed_search_unreachable)]
+#[kani::stub(<::whirlpool::state::TickArray as ::whirlpool::state::TickArrayType>::get_tick, stub_fixed_get_tick_unreachable)]
+#[kani::stub(<::whirlpool::state::TickArray as ::whirlpool::state::TickArrayType>::update_tick, stub_fixed_update_unreachable)]
+#[kani::stub(<::whirlpool::state::DynamicTickArrayLoader as ::whirlpool::state::TickArrayType>::get_tick, stub_dyn_get_tick_unreachable)]
+#[kani::stub(<::whirlpool::state::DynamicTickArrayLoader as ::whirlpool::state::TickArrayType>::update_tick, stub_dyn_update_unreachable)]
+fn c10_b_seq_n2_idx0_a2b_ts64() {
+    seq_vs_ref(64, true, 2, 0);
+}
+
+/// (b) SwapTickSequence::get_next_initialized_tick_index == reference; 2 dynamic array(s), start_array_index 0 (both concrete: symbolic ones ran out of memory / time), symbolic valid start indexes, 128-bit bitmaps, search tick; direction b2a; spacing 64; the per-array search is replaced by its reference from (a)
+// @verif prop=C10 tier=quick timeout=900 contract
+#[kani::proof]
+#[kani::unwind(5)]
+#[kani::stub(alloc::fmt::format, stub_format)]
+#[kani::stub(<anchor_lang::error::Error as core::convert::From<::whirlpool::errors::ErrorCode>>::from, stub_err_from_code)]
+#[kani::stub(<::whirlpool::state::DynamicTickArrayLoader as ::whirlpool::state::TickArrayType>::get_next_init_tick_index, stub_dyn_search_by_reference)]
+#[kani::stub(<::whirlpool::state::TickArray as ::whirlpool::state::TickArrayType>::get_next_init_tick_index, stub_fixed_search_unreachable)]
+#[kani::stub(<::whirlpool::state::TickArray as ::whirlpool::state::TickArrayType>::get_tick, stub_fixed_get_tick_unreachable)]
+#[kani::stub(<::whirlpool::state::TickArray as ::whirlpool::state::TickArrayType>::update_tick, stub_fixed_update_unreachable)]
+#[kani::stub(<::whirlpool::state::DynamicTickArrayLoader as ::whirlpool::state::TickArrayType>::get_tick, stub_dyn_get_tick_unreachable)]
+#[kani::stub(<::whirlpool::state::DynamicTickArrayLoader as ::whirlpool::state::TickArrayType>::update_tick, stub_dyn_update_unreachable)]
+fn c10_b_seq_n2_idx0_b2a_ts64() {
+    seq_vs_ref(64, false, 2, 0);
+}
+
+/// (b) start_array_index beyond the supplied arrays => TickArraySequenceInvalidIndex (2 arrays, index 2), direction symbolic
+// @verif prop=C10 tier=quick timeout=900 contract
+#[kani::proof]
+#[kani::unwind(5)]
+#[kani::stub(alloc::fmt::format, stub_format)]
+#[kani::stub(<anchor_lang::error::Error as core::convert::From<::whirlpool::errors::ErrorCode>>::from, stub_err_from_code)]
+#[kani::stub(<::whirlpool::state::DynamicTickArrayLoader as ::whirlpool::state::TickArrayType>::get_next_init_tick_index, stub_dyn_search_by_reference)]
+#[kani::stub(<::whirlpool::state::TickArray as ::whirlpool::state::TickArrayType>::get_next_init_tick_index, stub_fixed_search_unreachable)]
+#[kani::stub(<::whirlpool::state::TickArray as ::whirlpool::state::TickArrayType>::get_tick, stub_fixed_get_tick_unreachable)]
+#[kani::stub(<::whirlpool::state::TickArray as ::whirlpool::state::TickArrayType>::update_tick, stub_fixed_update_unreachable)]
+#[kani::stub(<::whirlpool::state::DynamicTickArrayLoader as ::whirlpool::state::TickArrayType>::get_tick, stub_dyn_get_tick_unreachable)]
+#[kani::stub(<::whirlpool::state::DynamicTickArrayLoader as ::whirlpool::state::TickArrayType>::update_tick, stub_dyn_update_unreachable)]
+fn c10_b_seq_n2_idx2_ts64() {
+    if kani::any() {
+        seq_vs_ref(64, true, 2, 2);
+    } else {
+        seq_vs_ref(64, false, 2, 2);
+    }
 }
 
 // ---------------------------------------------------------------------------------------------
 // (d) get_start_tick_indexes
 
-/// Anchor `Account<Whirlpool>` over a 653-byte image in which only key, tick_spacing and tick_current_index matter
-fn wp_data(ts: u16, tc: i32) -> [u8; 653] {
-    let mut d = [0u8; 653];
-    d[..8].copy_from_slice(Whirlpool::DISCRIMINATOR);
-    d[41..43].copy_from_slice(&ts.to_le_bytes());
-    d[81..85].copy_from_slice(&tc.to_le_bytes());
-    d
+/// `Account<Whirlpool>` without running `Account::try_from` (its 32-byte key compares force unwind >= 33, and
+/// with that bound the `filter_map().collect()` inside `get_start_tick_indexes` unrolls 34 x 34 times).
+/// `Account` has two private fields `{ account: T, info: &AccountInfo }`; the value is built through a struct of
+/// the same shape. The layout assumption is CHECKED by every harness that uses it (`check_fake_account`).
+struct AccountShape<'a, 'info> {
+    account: Whirlpool,
+    info: &'a AccountInfo<'info>,
+}
+fn fake_wp_account<'info>(wp: Whirlpool, info: &'info AccountInfo<'info>) -> Account<'info, Whirlpool> {
+    unsafe { core::mem::transmute::<AccountShape<'info, 'info>, Account<'info, Whirlpool>>(AccountShape { account: wp, info }) }
+}
+fn check_fake_account(a: &Account<Whirlpool>, key: &Pubkey, ts: u16, tc: i32) {
+    use anchor_lang::Key;
+    assert!(a.tick_spacing == ts && a.tick_current_index == tc, "Account<Whirlpool> layout assumption");
+    assert!(a.key().to_bytes()[0] == key.to_bytes()[0] && a.key().to_bytes()[31] == key.to_bytes()[31], "Account<Whirlpool> layout assumption (info)");
 }
 
 fn start_indexes_vs_ref(ts: u16) {
@@ -170,10 +646,14 @@ fn start_indexes_vs_ref(ts: u16) {
     let q: i32 = kani::any(); // reference witness: index of the first array
     let key = Pubkey::new_from_array([7u8; 32]);
     let mut lamports = 1u64;
-    let mut data = wp_data(ts, tc);
+    let mut data = [0u8; 0];
     let owner = ::whirlpool::ID;
     let ai = AccountInfo::new(&key, false, true, &mut lamports, &mut data[..], &owner, false, 0);
-    let wp: Account<Whirlpool> = Account::try_from(&ai).unwrap();
+    let mut w = Whirlpool::default();
+    w.tick_spacing = ts;
+    w.tick_current_index = tc;
+    let wp = fake_wp_account(w, &ai);
+    check_fake_account(&wp, &key, ts, tc);
     let v = ::whirlpool::util::verif_get_start_tick_indexes(&wp, a_to_b);
 
     // reference: first = start of the array holding x, x = tick_current (a_to_b) or tick_current + spacing
@@ -209,26 +689,83 @@ fn start_indexes_vs_ref(ts: u16) {
     }
 }
 
-/// (d) get_start_tick_indexes == reference; symbolic tick_current_index in [MIN-1, MAX], direction; spacing 64
+/// (d) get_start_tick_indexes == reference (consecutive arrays from the one holding the (shifted) current tick, clipped at the protocol bounds); symbolic tick_current_index in [MIN-1, MAX], direction; spacing 1
 // @verif prop=C10 tier=quick timeout=300
 #[kani::proof]
-#[kani::unwind(34)]
+#[kani::unwind(5)]
 #[kani::stub(alloc::fmt::format, stub_format)]
 #[kani::stub(<anchor_lang::error::Error as core::convert::From<::whirlpool::errors::ErrorCode>>::from, stub_err_from_code)]
-#[kani::stub(<anchor_lang::error::Error as core::convert::From<anchor_lang::error::ErrorCode>>::from, stub_err_from_anchor_code)]
+fn c10_d_start_indexes_ts1() {
+    start_indexes_vs_ref(1);
+}
+
+/// (d) get_start_tick_indexes == reference (consecutive arrays from the one holding the (shifted) current tick, clipped at the protocol bounds); symbolic tick_current_index in [MIN-1, MAX], direction; spacing 8
+// @verif prop=C10 tier=quick timeout=300
+#[kani::proof]
+#[kani::unwind(5)]
+#[kani::stub(alloc::fmt::format, stub_format)]
+#[kani::stub(<anchor_lang::error::Error as core::convert::From<::whirlpool::errors::ErrorCode>>::from, stub_err_from_code)]
+fn c10_d_start_indexes_ts8() {
+    start_indexes_vs_ref(8);
+}
+
+/// (d) get_start_tick_indexes == reference (consecutive arrays from the one holding the (shifted) current tick, clipped at the protocol bounds); symbolic tick_current_index in [MIN-1, MAX], direction; spacing 64
+// @verif prop=C10 tier=quick timeout=300
+#[kani::proof]
+#[kani::unwind(5)]
+#[kani::stub(alloc::fmt::format, stub_format)]
+#[kani::stub(<anchor_lang::error::Error as core::convert::From<::whirlpool::errors::ErrorCode>>::from, stub_err_from_code)]
 fn c10_d_start_indexes_ts64() {
     start_indexes_vs_ref(64);
 }
 
-/// (d) get_start_tick_indexes == reference; symbolic tick_current_index, direction and tick spacing (all u16 >= 1)
+/// (d) get_start_tick_indexes == reference (consecutive arrays from the one holding the (shifted) current tick, clipped at the protocol bounds); symbolic tick_current_index in [MIN-1, MAX], direction; spacing 32896
 // @verif prop=C10 tier=quick timeout=300
 #[kani::proof]
-#[kani::unwind(34)]
+#[kani::unwind(5)]
 #[kani::stub(alloc::fmt::format, stub_format)]
 #[kani::stub(<anchor_lang::error::Error as core::convert::From<::whirlpool::errors::ErrorCode>>::from, stub_err_from_code)]
-#[kani::stub(<anchor_lang::error::Error as core::convert::From<anchor_lang::error::ErrorCode>>::from, stub_err_from_anchor_code)]
-fn c10_d_start_indexes_symbolic_spacing() {
-    let ts: u16 = kani::any();
-    kani::assume(ts >= 1);
-    start_indexes_vs_ref(ts);
+fn c10_d_start_indexes_ts32896() {
+    start_indexes_vs_ref(32896);
 }
+
+/// (d) get_start_tick_indexes == reference (consecutive arrays from the one holding the (shifted) current tick, clipped at the protocol bounds); symbolic tick_current_index in [MIN-1, MAX], direction; spacing 2
+// @verif prop=C10 tier=thorough timeout=300
+#[kani::proof]
+#[kani::unwind(5)]
+#[kani::stub(alloc::fmt::format, stub_format)]
+#[kani::stub(<anchor_lang::error::Error as core::convert::From<::whirlpool::errors::ErrorCode>>::from, stub_err_from_code)]
+fn c10_d_start_indexes_ts2() {
+    start_indexes_vs_ref(2);
+}
+
+/// (d) get_start_tick_indexes == reference (consecutive arrays from the one holding the (shifted) current tick, clipped at the protocol bounds); symbolic tick_current_index in [MIN-1, MAX], direction; spacing 128
+// @verif prop=C10 tier=thorough timeout=300
+#[kani::proof]
+#[kani::unwind(5)]
+#[kani::stub(alloc::fmt::format, stub_format)]
+#[kani::stub(<anchor_lang::error::Error as core::convert::From<::whirlpool::errors::ErrorCode>>::from, stub_err_from_code)]
+fn c10_d_start_indexes_ts128() {
+    start_indexes_vs_ref(128);
+}
+
+/// (d) get_start_tick_indexes == reference (consecutive arrays from the one holding the (shifted) current tick, clipped at the protocol bounds); symbolic tick_current_index in [MIN-1, MAX], direction; spacing 256
+// @verif prop=C10 tier=thorough timeout=300
+#[kani::proof]
+#[kani::unwind(5)]
+#[kani::stub(alloc::fmt::format, stub_format)]
+#[kani::stub(<anchor_lang::error::Error as core::convert::From<::whirlpool::errors::ErrorCode>>::from, stub_err_from_code)]
+fn c10_d_start_indexes_ts256() {
+    start_indexes_vs_ref(256);
+}
+
+/// (d) get_start_tick_indexes == reference (consecutive arrays from the one holding the (shifted) current tick, clipped at the protocol bounds); symbolic tick_current_index in [MIN-1, MAX], direction; spacing 32768
+// @verif prop=C10 tier=thorough timeout=300
+#[kani::proof]
+#[kani::unwind(5)]
+#[kani::stub(alloc::fmt::format, stub_format)]
+#[kani::stub(<anchor_lang::error::Error as core::convert::From<::whirlpool::errors::ErrorCode>>::from, stub_err_from_code)]
+fn c10_d_start_indexes_ts32768() {
+    start_indexes_vs_ref(32768);
+}
+
